@@ -892,8 +892,15 @@ def m_string_push_str(ip, c, a):
 def m_str_index_rangefrom(ip, c, a):
     s = val_of_strlike(a[0]); r = a[1]
     start = r.fields[0].v
-    if not is_sym(s): return s.encode()[start:].decode()
-    return T("(str.substr %s %s (str.len %s))", 'String', s.s, smt_int(start), s.s)
+    if not is_sym(s) and not is_sym(start):
+        b = s.encode()
+        if start > len(b): raise Panic("start byte index %d is out of bounds of string" % start)
+        try: return b[start:].decode()
+        except UnicodeDecodeError: raise Panic("byte index %d is not a char boundary" % start)
+    # symbolic (ASCII) text or symbolic start: slicing past the end panics
+    inb = T("(<= %s (str.len %s))", 'Bool', smt_int(start), smt_str(s))
+    if not ip.branch(inb): raise Panic("start byte index is out of bounds of string")
+    return T("(str.substr %s %s (str.len %s))", 'String', smt_str(s), smt_int(start), smt_str(s))
 def m_str_index_range(ip, c, a):
     s = val_of_strlike(a[0]); r = a[1]
     if is_sym(s): raise Unsupported("range index of symbolic string")
